@@ -113,6 +113,12 @@ TOOLS7 = {
     "accumulate": (lambda h, k: a.accumulate(h, _last, initial=0), lambda m, k: itertools.accumulate(m, _last, initial=0), False),
     "chain": (lambda h, k: a.chain(h, []), lambda m, k: itertools.chain(m, []), False),
     "compress": (lambda h, k: a.compress(h, [1, 0, 1, 1, 0][:k + 1]), lambda m, k: itertools.compress(m, [1, 0, 1, 1, 0][:k + 1]), False),
+    # the shared iterator in the SECOND place, behind a shorter first input: it is asked only after the first one
+    "compress-selectors": (lambda h, k: a.compress(range(k), h), lambda m, k: itertools.compress(range(k), m), False),
+    "map2": (lambda h, k: a.map(_last, range(k), h), lambda m, k: map(_last, range(k), m), False),
+    "zip3": (lambda h, k: a.zip(range(k + 1), h, range(k)), lambda m, k: zip(range(k + 1), m, range(k)), False),
+    "zip_longest2": (lambda h, k: a.zip_longest(range(k), h), lambda m, k: itertools.zip_longest(range(k), m), False),
+    "chain2": (lambda h, k: a.chain(range(k), h), lambda m, k: itertools.chain(range(k), m), False),
     "starmap": (lambda h, k: a.starmap(_last, a.zip(h)), lambda m, k: itertools.starmap(_last, zip(m)), False),
     "zip_longest": (lambda h, k: a.zip_longest(h, range(k)), lambda m, k: itertools.zip_longest(m, range(k)), False),
     "merge": (lambda h, k: a.merge(h, key=lambda x: 0), lambda m, k: heapq.merge(m, key=lambda x: 0), False),
